@@ -24,11 +24,12 @@ var (
 )
 
 type CaseC20 struct {
-	Code  int            `json:"stream_type"`
-	PID   int            `json:"pid"`
-	Desc  ref.Descriptor `json:"desc"`      // a well-formed descriptor of a decoded kind
-	Other int            `json:"other_tag"` // the same body under this other tag
-	Types []int          `json:"types"`     // stream types of a small PMT for the by-PID query
+	Code  int              `json:"stream_type"`
+	PID   int              `json:"pid"`
+	Desc  ref.Descriptor   `json:"desc"`      // a well-formed descriptor of a decoded kind
+	Other int              `json:"other_tag"` // the same body under this other tag
+	Types []int            `json:"types"`     // stream types of a small PMT for the by-PID query
+	Extra []ref.Descriptor `json:"extra"`     // descriptors attached to the streams: classification depends on the code only
 }
 
 func genC20(t *rapid.T) CaseC20 {
@@ -51,6 +52,19 @@ func genC20(t *rapid.T) CaseC20 {
 			c.Types = append(c.Types, rapid.SampledFrom([]int{3, 4, 15, 17, 129, 135, 136, 2, 27, 36, 134, 21, 6}).Draw(t, "type-known"))
 		} else {
 			c.Types = append(c.Types, rapid.IntRange(0, 255).Draw(t, "type-any"))
+		}
+	}
+	ne := rapid.IntRange(0, 3).Draw(t, "nextra")
+	for i := 0; i < ne; i++ {
+		switch rapid.IntRange(0, 3).Draw(t, "extra-kind") {
+		case 0:
+			// descriptors that announce a codec (DVB AC-3 / E-AC-3, registration format identifiers)
+			c.Extra = append(c.Extra, rapid.SampledFrom([]ref.Descriptor{
+				{Tag: 0x6A, Body: []byte{0x00}}, {Tag: 0x7A, Body: []byte{0x00}}, {Tag: 0x05, Body: []byte("AC-3")}, {Tag: 0x05, Body: []byte("EAC3")},
+				{Tag: 0x05, Body: []byte("HEVC")}, {Tag: 0x05, Body: []byte("CUEI")}, {Tag: 0x7C, Body: []byte{0x58, 0x00}}, {Tag: 0x81, Body: []byte{0x08, 0x3C, 0x05}},
+				{Tag: 0xCC, Body: []byte{0xC0, 0x00}}, {Tag: 0x28, Body: []byte{0x64, 0x00, 0x28, 0x3F}}, {Tag: 0x38, Body: []byte{0x00, 0x00, 0x00, 0x00, 0x00, 0x00, 0x00, 0x00, 0x00, 0x00, 0x00, 0x00, 0x00}}}).Draw(t, "extra-codec"))
+		default:
+			c.Extra = append(c.Extra, genDescriptor(t, 30))
 		}
 	}
 	return c
@@ -165,10 +179,10 @@ func c20Decoders(tag byte, body []byte, kind byte) *hx.Failure {
 	return nil
 }
 
-func c20PMTQuery(types []int) *hx.Failure {
+func c20PMTQuery(types []int, extra []ref.Descriptor) *hx.Failure {
 	m := &ref.PMT{Program: 1, Version: 3, CurrentNext: true, PCRPID: 0x100}
 	for i, ty := range types {
-		m.Streams = append(m.Streams, ref.ESInfo{StreamType: byte(ty), PID: 0x100 + i})
+		m.Streams = append(m.Streams, ref.ESInfo{StreamType: byte(ty), PID: 0x100 + i, Descs: extra})
 	}
 	pmt, err := psi.NewPMT(append([]byte{0}, m.Section()...))
 	if err != nil {
@@ -214,7 +228,20 @@ func checkC20(c CaseC20, x *hx.Ctx) *hx.Failure {
 	if f := c20Decoders(byte(c.Other), c.Desc.Body, c.Desc.Tag); f != nil {
 		return f
 	}
-	return c20PMTQuery(c.Types)
+	// with descriptors attached the classification must be the same
+	var ds []psi.PmtDescriptor
+	for _, d := range c.Extra {
+		ds = append(ds, psi.NewPmtDescriptor(d.Tag, clone(d.Body)))
+	}
+	if len(ds) > 0 {
+		if f := c20StreamType(c.Code, psi.NewPmtElementaryStream(uint8(c.Code), c.PID, ds), fmt.Sprintf("NewPmtElementaryStream with %d descriptors (tags %v)", len(ds), c20Tags(c.Extra))); f != nil {
+			return f
+		}
+	}
+	if f := c20PMTQuery(append([]int{c.Code}, c.Types...), c.Extra); f != nil {
+		return f
+	}
+	return c20PMTQuery(c.Types, nil)
 }
 
 var propC20 = hx.Register(hx.Prop[CaseC20]{ID: "C20", Gen: genC20, Check: checkC20})
@@ -262,4 +289,12 @@ func TestC20Exhaustive(t *testing.T) {
 func FuzzC20(f *testing.F) {
 	c20Rule()
 	f.Fuzz(propC20.Fuzz())
+}
+
+func c20Tags(ds []ref.Descriptor) []string {
+	var out []string
+	for _, d := range ds {
+		out = append(out, fmt.Sprintf("%#x", d.Tag))
+	}
+	return out
 }
